@@ -478,6 +478,6 @@ ORACLES = [
         thorough=500,
     ),
     Oracle("presets_exhaustive", st.just({}), check_presets, quick=1, thorough=1),
-    Oracle("config_defaults", config_case(), check_config, classify=classify_cfg, quick=250, thorough=2500),
-    Oracle("config_faults", fault_case(), check_config_fault, classify=lambda c: c["fault"], quick=200, thorough=1500),
+    Oracle("config_defaults", config_case(), check_config, classify=classify_cfg, quick=250, thorough=5000),
+    Oracle("config_faults", fault_case(), check_config_fault, classify=lambda c: c["fault"], quick=200, thorough=3000),
 ]
